@@ -636,3 +636,28 @@ func LZWEncodeDeferredClear(prefix []byte, early, n int, pick func(i, top int) i
 	bw.write(257, width())
 	return bw.flush(), data
 }
+
+// ASCIIHexEncodeWrapped writes the digits without regard to byte pairs and
+// breaks the line with ws after every width characters (at an odd width the
+// two digits of every other byte end up on different lines); lower selects
+// the case.
+func ASCIIHexEncodeWrapped(d []byte, width int, ws string, lower bool) []byte {
+	hex := "0123456789ABCDEF"
+	if lower {
+		hex = "0123456789abcdef"
+	}
+	var out []byte
+	n := 0
+	put := func(c byte) {
+		out = append(out, c)
+		n++
+		if n%width == 0 {
+			out = append(out, ws...)
+		}
+	}
+	for _, b := range d {
+		put(hex[b>>4])
+		put(hex[b&15])
+	}
+	return append(out, '>')
+}
